@@ -11,7 +11,10 @@ theorem rsFinish_exit_nonzero (cx : Ctx) (t : Nat) (sc : Script) (w : World) (hx
   split
   · simp
   · dsimp only
-    exact_mod_cast hx
+    split
+    · simp [CRASHED]
+    · show ((sc.exit : Nat) : Int) ≠ 0
+      exact_mod_cast hx
 
 /-- A script whose last command is `exit k`, `k ≠ 0`, never ends with status 0 (it ends with `k`, or earlier
 with the status of the first failing command). -/
